@@ -162,6 +162,56 @@ func c11Case(i int, raw []byte) Result {
 			}
 			pages = append(pages, layout.PageFragments{PageIndex: p, PageHeight: 792, PageWidth: 612, Fragments: frs})
 		}
+		// ... and the same pages in top-down coordinates that overflow the page height (as some producers' content ends up
+		// after extraction: Y grows downward and the lowest line lies beyond the nominal height): the top of the page is
+		// then the small-Y edge. Only documents with a bottom-band line on every page (that line is what overflows).
+		allBottom := true
+		for _, pg := range c.Doc {
+			has := false
+			for _, f := range pg {
+				if f.Band == "Bottom" {
+					has = true
+				}
+			}
+			allBottom = allBottom && has
+		}
+		// (in that regime the implementation measures the bands from each page's own content extent, so the pass is kept to
+		// documents whose pages all have the same extent: a header and a bottom line on every page, nothing else in the bands)
+		var plain struct {
+			Hdr, Title, Drift                    string
+			Grid, Short, Cover, Beqh, Brep, Bnum bool
+		}
+		json.Unmarshal(c.Flags, &plain)
+		if allBottom && plain.Hdr == "all" && plain.Title == "none" && plain.Drift == "none" && !plain.Grid && !plain.Short && !plain.Cover && !plain.Beqh && !plain.Brep && !plain.Bnum {
+			var inv []layout.PageFragments
+			for _, pg := range pages {
+				q := layout.PageFragments{PageIndex: pg.PageIndex, PageHeight: 792, PageWidth: 612}
+				for _, f := range pg.Fragments {
+					f.Y = 792 - f.Y + 40
+					q.Fragments = append(q.Fragments, f)
+				}
+				inv = append(inv, q)
+			}
+			resI := layout.NewHeaderFooterDetector().Detect(inv)
+			for p, pg := range inv {
+				kept := resI.FilterFragments(p, pg.Fragments, 792)
+				k := 0
+				var removed []int
+				for idx, f := range pg.Fragments {
+					if k < len(kept) && kept[k].Text == f.Text && kept[k].Y == f.Y && kept[k].X == f.X {
+						k++
+					} else {
+						removed = append(removed, idx+1)
+					}
+				}
+				if k != len(kept) {
+					return mk("not-subsequence:topdown", fmt.Sprintf("detector (top-down coordinates): page %d output is not the input minus some fragments", p+1), nil)
+				}
+				if cl, what := hfJudge(&c, p, removed, "detector (top-down coordinates)", raw); cl != "" {
+					return mk(cl+":topdown", what, removed)
+				}
+			}
+		}
 		res := layout.NewHeaderFooterDetector().Detect(pages)
 		for p, pg := range pages {
 			kept := res.FilterFragments(p, pg.Fragments, 792)
